@@ -12,13 +12,14 @@ EXTENDS Palette, Json
 CONSTANT MaxN, AllEnc
 
 (* ---- label palette per map kind: <<label, value1, value2>> (both values valid for the label) ---- *)
-HdrDup == { <<Nat2I(1), Neg2I(7), Nat2I(1)>>, <<Nat2I(2), Arr(<<Nat2I(1)>>), Arr(<<Nat2I(4)>>)>>, <<Nat2I(3), Nat2I(0), Nat2I(60)>>,
+HdrDup == { <<Nat2I(1), Neg2I(7), Nat2I(1)>>, <<Nat2I(2), Arr(<<Nat2I(1)>>), Arr(<<Nat2I(4)>>)>>, <<Nat2I(2), Arr(<<Nat2I(1)>>), Arr(<<Nat2I(1)>>)>>, <<Nat2I(3), Nat2I(0), Nat2I(60)>>,
             <<Nat2I(4), B1, B12>>, <<Nat2I(5), B1, B1>>, <<Nat2I(6), B1, B12>>, <<Nat2I(7), SigMin, SigA0>>,
             <<Nat2I(0), Nat2I(1), Nat2I(2)>>, <<Nat2I(8), Nat2I(1), B1>>, <<Nat2I(24), Nat2I(1), Nat2I(1)>>, <<Z2I(256), B1, Nil>>,
             <<Z2I(65536), Nat2I(1), Nat2I(2)>>, <<I63max, Nat2I(1), Nat2I(2)>>,
             <<Neg2I(1), Nat2I(1), Nat2I(2)>>, <<Neg2I(25), Nat2I(1), Nat2I(2)>>, <<Neg2I(65537), Nat2I(1), Nat2I(2)>>, <<N63, Nat2I(1), Nil>>,
             <<Ta, Nat2I(1), Nat2I(2)>>, <<Te, Nat2I(1), B1>>, <<Tx(<<195,169>>), Nat2I(1), Nat2I(2)>> }
 KeyDupP == { <<Nat2I(1), Nat2I(1), Nat2I(2)>>, <<Nat2I(2), B1, B12>>, <<Nat2I(3), Neg2I(7), Ta>>, <<Nat2I(4), Arr(<<Nat2I(1)>>), Arr(<<Nat2I(2)>>)>>,
+            <<Nat2I(4), Arr(<<Nat2I(1)>>), Arr(<<Nat2I(1)>>)>>,          \* the same operations twice: still "duplicate key", not "repeated entry"
             <<Nat2I(5), B1, B12>>, <<Nat2I(0), Nat2I(1), Nat2I(2)>>, <<Neg2I(1), Nat2I(1), B1>>, <<Neg2I(4), B1, B1>>,
             <<Neg2I(65537), Nat2I(1), Nat2I(2)>>, <<I63max, Nat2I(1), Nat2I(2)>>, <<Ta, Nat2I(1), Nat2I(2)>> }
 ClaimDup == { <<Nat2I(1), Ta, Tt>>, <<Nat2I(4), Nat2I(1), F15>>, <<Nat2I(7), B1, B12>>, <<Nat2I(0), Nat2I(1), Nat2I(2)>>,
